@@ -402,6 +402,83 @@ def type_alias_probes(ctx: Ctx, eng):
                     break
 
 
+B64_ALPHABET = frozenset("ABCDEFGHIJKLMNOPQRSTUVWXYZabcdefghijklmnopqrstuvwxyz0123456789+/")
+B64_NEAR = "-_ \n\t\r.,:;*~$%é１Ａ\x00\x7f"      # url-safe alphabet, white space, punctuation, non-ASCII letters and digits
+
+
+def base64_rule_probes(ctx: Ctx, eng, n_random: int):
+    """bytes-like types are "represented as base64 encoded string" (RFC 4648 standard alphabet).  Independent of the library:
+      * b64encode(b) is accepted and gives b back;
+      * an accepted string consists of alphabet characters and `=` only, and the result is its base64 decoding
+        (no character is ever silently dropped);
+    for bytes / bytearray / BytesIO / Literal[b"..."], alone and as container elements, both coercion modes.  Strings: the
+    one-character neighbourhood (insert / replace, every position) of canonical encodings with near-miss characters, and
+    random strings over alphabet + near-miss characters."""
+    import binascii
+    import io
+    from typing import Literal
+    rng = ctx.rng
+    payloads = [b"", b"a", b"ab", b"abc", b"\xff\xfe\xfd", b"\xfb\xff", bytes(range(7))]
+    strings = []
+    for b in payloads:
+        e = base64.b64encode(b).decode()
+        strings.append(e)
+        for i in range(len(e) + 1):
+            for c in B64_NEAR:
+                strings.append(e[:i] + c + e[i:])
+                if i < len(e):
+                    strings.append(e[:i] + c + e[i + 1:])
+    chars = "".join(sorted(B64_ALPHABET))[::5] + "=" + B64_NEAR
+    for _ in range(n_random):
+        strings.append("".join(rng.choice(chars) for _ in range(rng.choice([2, 3, 4, 4, 5, 8, 8, 9, 12]))))
+    targets = [("bytes", bytes, lambda v: v), ("bytearray", bytearray, bytes), ("BytesIO", io.BytesIO, lambda v: v.getvalue()),
+               ("Literal[b'abc']", Literal[b"abc"], lambda v: v), ("list[bytes]", list[bytes], lambda v: v[0]),
+               ("dict[str, bytearray]", dict[str, bytearray], lambda v: bytes(v["k"]))]
+    wrap = {"list[bytes]": lambda s_: [s_], "dict[str, bytearray]": lambda s_: {"k": s_}}
+    for name, hint, unwrap in targets:
+        for strict in (True, False):
+            ld = eng.real.loader("DISABLE", strict, hint)
+            for s_ in strings:
+                out = _run_keep(ld, wrap.get(name, lambda x: x)(s_))
+                clean = all(c in B64_ALPHABET or c == "=" for c in s_)
+                ctx.note_case({"t": name, "s": s_}, nontrivial=not clean, kind="base64-rule:" + ("alphabet-only" if clean else "foreign-character"))
+                case = {"suite": "base64-rule", "type": name, "strict": strict, "string": [ord(c) for c in s_]}
+                if out[0] == "ok":
+                    if not clean:
+                        ctx.fail("base64-rule:accepts-foreign-character",
+                                 f"load({s_!r}, {name}) (strict={strict}) is accepted ({unwrap(out[1])!r}) although the string is not "
+                                 f"base64: it contains characters outside the standard alphabet", case)
+                        break
+                    try:
+                        want = binascii.a2b_base64(s_)
+                    except binascii.Error:
+                        want = None
+                    if want is None or bytes(unwrap(out[1])) != want:
+                        ctx.fail("base64-rule:wrong-bytes", f"load({s_!r}, {name}) (strict={strict}) gives {unwrap(out[1])!r}, the base64 "
+                                 f"decoding is {want!r}", case)
+                        break
+                elif out[0] == "err":
+                    canonical = clean and s_ in {base64.b64encode(b).decode() for b in payloads}
+                    if canonical and not (name.startswith("Literal") and s_ != "YWJj"):
+                        ctx.fail("base64-rule:rejects-canonical", f"load({s_!r}, {name}) (strict={strict}) is rejected although it is the "
+                                 f"base64 encoding of a bytes value", case)
+                        break
+                else:
+                    ctx.fail("base64-rule:escape", f"load({s_!r}, {name}) (strict={strict}) raised {out[1]}", case)
+                    break
+
+
+def _run_keep(ld, datum):
+    """-> ("ok", value) | ("err", class name) | ("escape", class name)"""
+    from adaptix.load_error import LoadError
+    try:
+        return ("ok", ld(datum))
+    except LoadError as e:
+        return ("err", type(e).__name__)
+    except Exception as e:  # noqa: BLE001
+        return ("escape", type(e).__name__)
+
+
 def run(ctx: Ctx):
     eng = morph.Engine(ctx)
     type_alias_probes(ctx, eng)
@@ -435,6 +512,7 @@ def run(ctx: Ctx):
             ctx.fail(f"dump-form:{rec['spec'].kind.split(':')[0]}", f"dump of a value of {repr(rec['spec'].hint)[:120]} is not the documented "
                      f"outer form", {"hint": repr(rec["spec"].hint)[:300], "value": morph.enc(rec["value"]), "real": real, "documented": we})
     newtype_probes(ctx, eng)
+    base64_rule_probes(ctx, eng, ctx.budget(400, 8000))
 
 
 def search(ctx: Ctx):
@@ -448,6 +526,7 @@ def search(ctx: Ctx):
     for rec in eng.dump_records(specs, n_values=2):
         union_dump_oracle(ctx, eng, rec)
     newtype_probes(ctx, eng)
+    base64_rule_probes(ctx, eng, 8000)
 
 
 def replay(ctx: Ctx, case) -> bool:
